@@ -765,6 +765,8 @@ var corpusParse = []string{"", " ", "_", "_:", "_:a", "/", "/<", "/a<", "/a<>", 
 	"] \"> \"", "] /> \"", "/a<b> \"p\"@[] /c<d>", "/a<b>\t\"p\"@[2006-01-02T15:04:05.999999999Z]\t\"1\"^^type:int64",
 	"\"a\"@[x", "\"a\"@[\"2006-01-02T15:04:05Z\"]", "\"a\\\"@[b\"@[]", "\"a\"^^type:text\"^^type:text", "\"+1\"^^type:int64",
 	"\"9223372036854775808\"^^type:int64", "\"-9223372036854775808\"^^type:int64", "\"T\"^^type:bool", "\"inf\"^^type:float64",
+	"\"a\"@[2006-01-02T15:04:05+24:60]", "\"a\"@[2006-01-02T15:04:05-24:60]", "\"a\"@[2006-01-02T15:04:05+24:59]", "\"a\"@[2006-01-02T15:04:05+23:60]",
+	"/a<b>\t\"p\"@[2006-01-02T15:04:05.5-24:60]\t\"q\"@[2006-01-02T15:04:05+24:60]",
 	"\"a\"@[2006-01-02T15:04:05+24:00]", "\"a\"@[2006-01-02T15:04:05+23:59]", "\"a\"@[2006-01-02T15:04:05-00:00]", "\"a\"@[0000-01-01T00:00:00Z]",
 	"\"a\"@[0000-01-01T00:00:00+14:00]", "\"a\"@[9999-12-31T23:59:59.999999999-12:00]", "\"a\"@[2006-01-02T15:04:05.999999999+00:00]",
 	"\"a\"@[2006-01-02T24:00:00Z]", "\"a\"@[2016-12-31T23:59:60Z]", "\"a\"@[2006-01-02T15:04:05,5Z]", "\"a\"@[2006-01-02t15:04:05z]",
